@@ -161,8 +161,8 @@ func (hc *HeaderChain) SetHead(head uint64, delFn DeleteCallback) {
 		if delFn != nil {
 			delFn(hc.db, height)
 		}
-		rawdb.DeleteBlockMeta(hc.db, height)
 		rawdb.DeleteBlockPart(hc.db, height)
+		rawdb.DeleteBlockMeta(hc.db, height)
 		hc.currentHeader.Store(hc.GetHeader(hdr.LastBlockID.Hash, hdr.Height-1))
 	}
 	// Roll back the canonical chain numbering
